@@ -465,17 +465,31 @@ def check_condition(prog, site, cond):
         ok = set(arms) <= inner
         return ok, "the site is on the all-false chain of inner tests %s which cover the enclosing arm %s" % (sorted(inner & set(arms)), arms)
     if ty == "guard_false_lt_sum":
-        # `start..end` where a dominating guard `end < start_base + k` is false and every value of k is >= the offset used
+        # `&s[start..end]` where a dominating guard `end < base + k` is false and every constant assigned to the user local k is
+        # >= the offset used in `start = base + offset` (role-based: locals are identified through the range operands)
+        rng = prim.origin_of_operand(fn, t.args[1]).strip()
+        if rng.k != "agg" or "Range" not in str(rng.a) or len(rng.kids) < 2:
+            return False, "index operand is not a range"
+        st_, en_ = rng.kids[0].strip(), rng.kids[1].strip()
+        core = st_.kids[0].strip() if st_.k == "field" and st_.kids else st_
+        if not (core.k == "bin" and core.a in ("Add", "AddWithOverflow") and en_.k == "var"):
+            return False, "range is not base+offset .. end"
+        base_l = [x.a.get("local") for x in core.walk() if x.k == "var"]
+        off = [c.get("v") for c in core.consts() if isinstance(c.get("v"), int)]
+        end_l = en_.a.get("local")
         for gd in gs:
             pr = gd["pred"].strip()
             if pr.k == "bin" and pr.a == "Lt" and gd["bool"] is False:
-                names = sorted(x.a.get("name") or "" for x in pr.walk() if x.k == "var")
-                if cond["end"] in names and cond["base"] in names and cond["k"] in names:
-                    ks = fn.locals_named(cond["k"])
-                    vals = [v for l in ks for _, v in prim.const_assigns_to(fn, l)]
-                    if vals and min(vals) >= cond["min"]:
-                        return True, "guard `%s < %s + %s` is false on the way here and %s >= %d" % (cond["end"], cond["base"], cond["k"], cond["k"], cond["min"])
-        return False, "no dominating false guard %s < %s + %s; guards %s" % (cond["end"], cond["base"], cond["k"], prim.guards_fmt(gs)[:200])
+                l, r = pr.kids[0].strip(), pr.kids[1].strip()
+                rc = r.kids[0].strip() if r.k == "field" and r.kids else r
+                if l.k == "var" and l.a.get("local") == end_l and rc.k == "bin" and rc.a in ("Add", "AddWithOverflow"):
+                    vs = [x.a.get("local") for x in rc.walk() if x.k == "var"]
+                    if base_l and base_l[0] in vs:
+                        ks = [v for v in vs if v != base_l[0]]
+                        vals = [v for l_ in ks for _, v in prim.const_assigns_to(fn, l_)]
+                        if ks and vals and off and min(vals) >= max(off):
+                            return True, "guard `end < base + k` is false on the way here and every value of k (%s) is >= the offset %s" % (sorted(set(vals)), off)
+        return False, "no dominating false guard `end < base + k` with k >= offset; guards %s" % prim.guards_fmt(gs)[:200]
     if ty == "param_true_and_callers":
         p = cond["param"]
         def is_p(o):
